@@ -210,10 +210,14 @@ pub fn standard_store() -> StoreD {
     // nested: an array holding another variable's cell, a map holding the array
     let nest = add(&mut cells, CellD::Array(vec![r(arr), r(s1)]));
     let mm = add(&mut cells, CellD::Map(vec![("a".into(), r(arr1))]));
+    // two levels of members: deep.a.b
+    let db = add(&mut cells, CellD::Int(5));
+    let da = add(&mut cells, CellD::Map(vec![("b".into(), r(db))]));
+    let deep = add(&mut cells, CellD::Map(vec![("a".into(), r(da))]));
     for (n, c) in [
         ("i1", i1), ("i2", i2), ("big", big), ("small", small), ("d1", d1), ("s1", s1), ("s2", s2), ("t", t),
         ("f", f), ("nul", nul), ("arr", arr), ("arr1", arr1), ("m", m), ("m1", m1), ("e", e), ("und", und),
-        ("err", err), ("src", src), ("nest", nest), ("mm", mm), ("x", x),
+        ("err", err), ("src", src), ("nest", nest), ("mm", mm), ("x", x), ("deep", deep),
     ] {
         vars.push((n.to_string(), r(c)));
     }
@@ -226,7 +230,7 @@ pub fn standard_store() -> StoreD {
     StoreD { cells, vars }
 }
 
-pub const INT_ATOMS: &[&str] = &["0", "1", "2", "3", "5", "7", "10", "100", "-1", "-4", "i1", "i2", "x"];
+pub const INT_ATOMS: &[&str] = &["0", "1", "2", "3", "5", "7", "10", "100", "-1", "-4", "i1", "i2", "x", "deep.a.b", "arr[1]"];
 pub const EDGE_INT_ATOMS: &[&str] =
     &["9223372036854775807", "-9223372036854775808", "9223372036854775806", "big", "small", "4611686018427387904", "-9223372036854775807"];
 pub const DBL_ATOMS: &[&str] = &["2.5", "0.5", "-4.75", "1e3", "1.5e2", "0.125", "d1", "3.0", "-0.0", "1024.0", ".5", "2."];
@@ -235,7 +239,7 @@ pub const BOOL_ATOMS: &[&str] = &["true", "false", "t", "f"];
 pub const OTHER_ATOMS: &[&str] = &[
     "null", "nul", "[1,2]", "[]", "['a']", "{'a':1}", "{}", "arr", "arr1", "m1", "al", "arr[1]", "m.k", "m['j']",
     "length(s1)", "s1.length()", "abs(i2)", "toString(i1)", "isDefined(und)", "indexOf(s1, s2)", "und", "err", "e",
-    "nest", "mm.a", "nest[0][2]", "[arr1]", "[[1]]",
+    "nest", "mm.a", "nest[0][2]", "[arr1]", "[[1]]", "deep.a.b", "deep.a", "s1.toString().length()", "deep.a.b.toString()",
 ];
 
 pub fn all_value_atoms() -> Vec<&'static str> {
